@@ -199,6 +199,15 @@ func runC17(c *seqCtx) {
 		}
 		return !c.Stopped()
 	})
+	// every byte value once: alone, inside a token, as a token of its own and in a tag name
+	for b := 0; b < 256; b++ {
+		ch := string([]byte{byte(b)})
+		for _, p := range []string{ch, "a" + ch, "a." + ch + "b", "$" + ch, ch + ".a"} {
+			if c.Mine() {
+				c17Pattern(p, nil, validNames[:1], emit, c.Eval, c.Excluded)
+			}
+		}
+	}
 	c.Sample(fmt.Sprintf("pattern %q x %d valid names", "a.$a.>", len(validNames)))
 	// pattern/pattern cover, all pairs of valid patterns up to length 4 (5 thorough)
 	lim := 4
